@@ -175,6 +175,11 @@ func c12Shutdown(nreq int, pool int) {
 	dur := []time.Duration{0, 300 * time.Millisecond, 600 * time.Millisecond, 3 * time.Second}[vapi.Choice("dur", 4)]
 	proto := &c12Proto{dur: dur}
 	cfg := &TarsServerConf{Proto: "tcp", Address: "10.0.0.7:7777", AcceptTimeout: 200 * time.Millisecond, MaxInvoke: int32(pool), QueueCap: 4}
+	if pool > 0 && dur == 600*time.Millisecond && vapi.Bool("handletimeout") {
+		// a handle timeout above every single handler, but below the time the queued requests need
+		// together: no handler times out, Shutdown must still wait for all of them
+		cfg.HandleTimeout = time.Second
+	}
 	ts := NewTarsServer(proto, cfg)
 	h := &tcpHandler{config: cfg, server: ts}
 	ts.handle = h
